@@ -3553,8 +3553,12 @@ impl<'a, E: quiver_core::effects::Effect> Compiler<'a, E> {
             Some(ast::AccessSource::TailCall(identifier)) => {
                 // `^` / `^f` / `^f.field` - a tail call (TCO). The flowing value (chained, or the
                 // argument of an enclosing `Apply`) is the call argument, already on the stack.
-                let ty =
-                    self.compile_tail_call(identifier.as_deref(), &access.accessors, value_type)?;
+                let ty = self.compile_tail_call(
+                    identifier.as_deref(),
+                    &access.accessors,
+                    value_type,
+                    implicit_flow,
+                )?;
                 Ok((ty, Provenance::Unknown))
             }
             Some(ast::AccessSource::TailCallRipple) => {
@@ -4461,9 +4465,10 @@ impl<'a, E: quiver_core::effects::Effect> Compiler<'a, E> {
         identifier: Option<&str>,
         accessors: &[ast::AccessPath],
         arg_type: Option<usize>,
+        implicit_flow: bool,
     ) -> Result<usize, Error> {
         // Handle argument - if none provided, check if function parameter is nil and use that
-        let _arg_type = if let Some(arg_t) = arg_type {
+        let arg_type = if let Some(arg_t) = arg_type {
             arg_t
         } else {
             let (func_param_type, _) = scopes::get_function_parameter(&self.scopes)?;
@@ -4481,7 +4486,16 @@ impl<'a, E: quiver_core::effects::Effect> Compiler<'a, E> {
         };
 
         if identifier.is_none() && accessors.is_empty() {
-            // Tail call to parameter - argument is already on stack, just emit tail call
+            // Tail call to the enclosing function - argument is already on stack. It must fit the
+            // function's declared parameter (not the narrowed view a branch has of it).
+            let param_type = scopes::get_declared_function_parameter(&self.scopes)?;
+            let ignore_value =
+                self.check_tail_call_argument(param_type, arg_type, implicit_flow)?;
+            if ignore_value {
+                // Stack: [value] -> [nil]
+                self.codegen.add_instruction(Instruction::Pop);
+                self.codegen.add_instruction(Instruction::Tuple(NIL));
+            }
             self.codegen.add_instruction(Instruction::TailCall(true));
             Ok(self.program.never())
         } else {
@@ -4506,11 +4520,23 @@ impl<'a, E: quiver_core::effects::Effect> Compiler<'a, E> {
                 self.compile_member_access(name, accessors.to_vec())?.0
             };
 
-            // Verify it's a function
+            // Verify it's a function, and that the argument fits its parameter
             match self.program.lookup_type(func_type) {
-                Some(Type::Callable { result, .. }) => {
+                Some(Type::Callable {
+                    parameter, result, ..
+                }) => {
+                    let (parameter, result) = (*parameter, *result);
+                    let ignore_value =
+                        self.check_tail_call_argument(parameter, arg_type, implicit_flow)?;
+                    if ignore_value {
+                        // Stack: [value, function] -> [function] -> [nil, function]
+                        self.codegen.add_instruction(Instruction::Rotate(2));
+                        self.codegen.add_instruction(Instruction::Pop);
+                        self.codegen.add_instruction(Instruction::Tuple(NIL));
+                        self.codegen.add_instruction(Instruction::Rotate(2));
+                    }
                     self.codegen.add_instruction(Instruction::TailCall(false));
-                    Ok(*result)
+                    Ok(result)
                 }
                 _ => Err(Error::TypeMismatch {
                     expected: "function".to_string(),
@@ -4518,6 +4544,33 @@ impl<'a, E: quiver_core::effects::Effect> Compiler<'a, E> {
                 }),
             }
         }
+    }
+
+    /// Check a tail call's argument against the callee's parameter, as an ordinary call does
+    /// (`apply_value_to_type`). Returns whether the argument is to be replaced by nil: a nilary
+    /// callee ignores an implicitly-flowing value.
+    fn check_tail_call_argument(
+        &mut self,
+        param_type: usize,
+        arg_type: usize,
+        implicit_flow: bool,
+    ) -> Result<bool, Error> {
+        if implicit_flow && self.is_nil(param_type) {
+            return Ok(!self.is_nil(arg_type));
+        }
+        if typing::contains_variables(param_type, &*self.program) {
+            let mut bindings = HashMap::new();
+            typing::unify(&mut bindings, param_type, arg_type, self.program)?;
+        } else if !quiver_core::types::is_compatible(arg_type, param_type, &*self.program) {
+            return Err(Error::TypeMismatch {
+                expected: format!(
+                    "function parameter compatible with {}",
+                    quiver_core::format::format_type_by_id(&*self.program, param_type)
+                ),
+                found: quiver_core::format::format_type_by_id(&*self.program, arg_type),
+            });
+        }
+        Ok(false)
     }
 
     /// Compile a ripple tail call (`^~`, `^~ x`): tail-call the flowing value, which must be a
